@@ -41,6 +41,21 @@ DESCRIPTIONS = {
  "C10|wrong-status|raw>ts|src=url|fam=json|nohook|want=400|got=200": "TS server answers 200 (dispatches) for an unconvertible URL value instead of 400 with a violation naming the field",
  "C10|wrong-status|ts>ts|src=url|": "TS server dispatches for an unconvertible URL value instead of answering 400",
 }
+DESCRIPTIONS.update({
+ "C01|call-failed|go>go|response-decode|ct=application/json|out=AnnDisc": "message with a discriminated oneof (oneof_config) as JSON response: the variant is decoded with encoding/json instead of protojson, so a variant message with an int64 (string in proto3 JSON), enum, bytes or Timestamp field fails to decode in the Go client (Go server output is not accepted by the Go client)",
+ "C01|call-failed|go>go|body-parse|ct=application/json|hasbody|in=AnnDisc": "message with a discriminated oneof (oneof_config) as JSON request: the Go server decodes the variant with encoding/json instead of protojson and rejects a valid body produced by the Go client (int64 / enum / bytes / Timestamp fields of the variant)",
+ "C01|call-failed|go>go|response-decode|ct=application/json|out=AnnDiscFlat": "message with a flattened discriminated oneof as JSON response: the variant's child fields are re-decoded with encoding/json instead of protojson, so int64 / enum / bytes / Timestamp children fail to decode in the Go client",
+ "C01|call-failed|go>go|body-parse|ct=application/json|hasbody|in=AnnDiscFlat": "message with a flattened discriminated oneof as JSON request: the Go server re-decodes the variant's child fields with encoding/json instead of protojson and rejects a valid body produced by the Go client",
+ "C01|call-failed|go>go|response-decode|ct=application/json|out=AnnFlat": "message with flatten fields as JSON response: the flattened child is decoded with encoding/json instead of protojson, so int64 / enum / bytes / Timestamp children fail to decode in the Go client",
+ "C01|call-failed|go>go|body-parse|ct=application/json|hasbody|in=AnnFlat": "message with flatten fields as JSON request: the Go server decodes the flattened child with encoding/json instead of protojson and rejects a valid body produced by the Go client",
+})
+
+DESCRIPTIONS.update({
+ "C01|boot|unwrap.pb.go|cannot use k (variable of type": "unwrap codec for a map whose key type is not string (e.g. map<uint32, Wrapper>): the emitted *_unwrap.pb.go indexes the map with a string key and does not compile",
+ "C01|response-mismatch|go>go|ct=application/json|out=AnnFlat|": "message with flatten fields as JSON response: a flattened child (e.g. {ok:true}) is lost on decode in the Go client (flatten round trip through encoding/json)",
+ "C01|request-mismatch|go>go|ct=application/json|in=AnnFlat|": "message with flatten fields as JSON request: a flattened child is lost or altered when the Go server decodes the body the Go client produced",
+})
+
 def describe(sig):
     best = None
     for k, v in DESCRIPTIONS.items():
